@@ -797,6 +797,57 @@ func runC11(c *runCtx) error {
 			}
 		}
 	}
+	// part C2: sizes around powers of two and beyond a thousand -- key sets handed to the direct
+	// removal (IN lists of 127, 128, 129, 256, 257 literal keys) and scan-and-delete over more than
+	// 1024 selected pairs with batch sizes whose running totals step over 1024 (buffering /
+	// chunking of the writes)
+	{
+		mkKeys := func(n int) []string {
+			ks := make([]string, n)
+			for i := range ks {
+				ks[i] = fmt.Sprintf("q%04d", i)
+			}
+			return ks
+		}
+		store := func(n int) [][2]string {
+			out := make([][2]string, n)
+			for i, k := range mkKeys(n) {
+				out[i] = [2]string{k, []string{"x", "x", "y", "x"}[i%4]}
+			}
+			return out
+		}
+		sizes := []int{127, 128, 129, 256}
+		if deep {
+			sizes = []int{63, 64, 65, 127, 128, 129, 255, 256, 257, 512}
+		}
+		for _, n := range sizes {
+			ks := mkKeys(n)
+			set := map[string]bool{}
+			qs := make([]string, n)
+			for i, k := range ks {
+				set[k] = true
+				qs[i] = c11Q(k)
+			}
+			p := c11Pred{"key in (" + strings.Join(qs, ", ") + ")", func(k, v string) bool { return set[k] }}
+			c11DeleteCase(e, p, c11Limit{}, store(n+44), n%2 == 0, 32, "large-keyset")
+			pa := c11Pred{p.text + " & value = 'x'", func(k, v string) bool { return set[k] && v == "x" }}
+			c11DeleteCase(e, pa, c11Limit{}, store(n+44), true, 3, "large-keyset")
+		}
+		big := []int{1100}
+		if deep {
+			big = []int{1025, 1100, 2400}
+		}
+		for _, n := range big {
+			for _, B := range []int{3, 5, 32} {
+				if deep || B == 3 {
+					c11DeleteCase(e, c11Pred{"key ^= 'q'", func(k, v string) bool { return strings.HasPrefix(k, "q") }}, c11Limit{}, store(n), true, B, "large-store")
+				}
+				if deep || B == 32 {
+					c11DeleteCase(e, c11Pred{"key ^= 'q' & value = 'x'", func(k, v string) bool { return strings.HasPrefix(k, "q") && v == "x" }}, c11Limit{}, store(n+n/3), true, B, "large-store")
+				}
+			}
+		}
+	}
 	// part D: statement sequences against a model map
 	nHist := 150
 	if deep {
